@@ -183,6 +183,18 @@ func c11Exec(alphabet []string) func(hist []int) (string, string, string, int) {
 					cl := "snapshot-differs-from-recorded"
 					return cl, fmt.Sprintf("after %q:\n snapshot %s\n recorded %s", after, got, want)
 				}
+				// a snapshot taken through any scope derived from the test scope shows the same tree
+				for lbl, ls := range live {
+					if inert[lbl] {
+						continue
+					}
+					if ts, ok := ls.(tally.TestScope); ok {
+						steps++
+						if via := snapshotSig(ts.Snapshot()); via != got {
+							return "snapshot-through-derived-scope-differs", fmt.Sprintf("after %q: the snapshot taken through scope %s differs from the one taken through the test scope itself:\n derived %s\n root    %s", after, lbl, via, got)
+						}
+					}
+				}
 				prev, prevSig = snap, got
 				return "", ""
 			}
